@@ -1425,6 +1425,21 @@ impl Sim {
                 Parsed::Bad => bad.push("price_invalid"),
                 Parsed::Odd => {}
             }
+            // C13's consequence: an admitted price times an admitted size is a whole number
+            if let Parsed::Ok(p) = dec::parse(&a.price) {
+                if let Some(t) = p.mul_int(dec::u(a.size)) {
+                    // (only at admission: a remainder left by fills of arbitrary size is not an admissible size)
+                    if t.representable() && !t.is_integral() && asks_named.contains(id) && kind == "create_ask" {
+                        self.flag(
+                            &["C13", "C11"],
+                            "I-wf.ask_total_not_integral",
+                            kind,
+                            "",
+                            format!("ask {}: price {} x remaining size {} is not a whole number", id, a.price, a.size),
+                        );
+                    }
+                }
+            }
             if let AskClass::Ready { cb_denom, cb_amount, .. } = &a.class {
                 if cb_denom != &cfg.base_denom {
                     bad.push("approver_escrow_denom");
